@@ -62,11 +62,12 @@ for _pid, _text, _also in [
     PROPS[_pid] = {
         "theorems": {"C02": ["C02_clone_with_seeds", "C02_seeds_irrelevant"],
                      "C03": ["C03_planner_executor_correct", "C03_inplace_exact"],
-                     "C05": ["C05_failed_write_not_ok", "C05_rerun_completes"],
+                     "C05": ["C05_failed_write_not_ok", "C05_rerun_completes", "C05_output_file_reports_failed_write",
+                             "C05_unflushed_would_lose_last_error"],
                      "C06": ["C06_fetch_exact", "C06_archive_fetch_exact"],
                      "C13": ["C13_write_trace_spec"]}[_pid],
-        "suites": ["planner", "clone"] + (["cliclone"] if _pid in ("C02", "C03", "C06") else []),
-        "needs_cli": _pid in ("C02", "C03", "C06"), "also": _also, "rule": _CLONE_RULE, "assumes": _CLONE_ASSUMES,
+        "suites": ["planner", "clone"] + (["cliclone"] if _pid in ("C02", "C03", "C06") else []) + (["clifault"] if _pid == "C05" else []),
+        "needs_cli": _pid in ("C02", "C03", "C06", "C05"), "also": _also, "rule": _CLONE_RULE, "assumes": _CLONE_ASSUMES,
         "trusted_base": [], "level_text": _text, "level_note": _CLONE_NOTE,
     }
 
